@@ -60,7 +60,8 @@ static void scen_run(void)
         W.grp[0].cmd = &G_cmds[0]; W.grp[0].cmd_num = G0; W.grp[0].disable = S.gdis[0]; W.grps[0] = &W.grp[0];
         W.grp[1].cmd = &G_cmds[G0]; W.grp[1].cmd_num = NCMDS - G0; W.grp[1].disable = S.gdis[1]; W.grps[1] = &W.grp[1];
         W.desc.cmd_group = W.grps; W.desc.cmd_group_num = 2;
-        W.desc.buf = G_buf; W.desc.buf_size = sizeof(G_buf);
+        /* the working buffer has the smallest size cat_init accepts (4 commands per byte); the two bytes behind it are a canary */
+        W.desc.buf = G_buf; W.desc.buf_size = (NCMDS + 3) / 4;
         W.desc.unsolicited_buf = G_ubuf; W.desc.unsolicited_buf_size = 2;
         /* cat_init walks all NCMDS names: the fields it sets are written directly instead */
         W.at.desc = &W.desc; W.at.io = &W.io; W.at.mutex = NULL; W.at.commands_num = NCMDS;
@@ -81,6 +82,8 @@ static void scen_run(void)
                         CHK(C02, G_buf[k] == S.buf[k], "set_cmd_state touched a byte that does not hold command i");
 
         prepare_parse_command(&W.at);
+        for (k = (NCMDS + 3) / 4; k < sizeof(G_buf); k++)
+                CHK(C03, G_buf[k] == S.buf[k], "prepare_parse_command wrote past a working buffer of the minimal legal size");
         CHK(C02, get_cmd_state(&W.at, i) == (en_i ? CAT_CMD_STATE_PARTIAL_MATCH : CAT_CMD_STATE_NOT_MATCH), "after the prefix every enabled command must be a partial match");
         CHK(C02, get_cmd_state(&W.at, j) == (en_j ? CAT_CMD_STATE_PARTIAL_MATCH : CAT_CMD_STATE_NOT_MATCH), "after the prefix every enabled command must be a partial match");
 
